@@ -1,6 +1,10 @@
 import Afkak.Group
 import Afkak.Monitor.C16
 import Afkak.Monitor.C17
+import Afkak.Monitor.C17Coord
+import Afkak.Monitor.C17Crash
+import Afkak.GroupCompose
+import Afkak.Monitor.C16Leave
 import Driver.Util
 /-!
 Line-protocol driver for the group model (exe `model_group`).
@@ -11,6 +15,10 @@ Line-protocol driver for the group model (exe `model_group`).
   mon-ev <event> / mon-ob <observation> / mon-snap <snapshot>          (snapshot closes the step)
   mon-end C16|C17                                         -> ok | fail <names…>
   mon-model C16|C17                                       -> the same monitors on the model's own trace since `reset`
+  pev fetch <cid> | pev commit <cid>                      -> `req fetch <cid>` | `req commit <cid> <gen> <member>` | `req refused`
+                                                             (product model Afkak.GroupCompose: a partition consumer sends a request)
+  mon-req fetch <cid> | mon-req commit <cid> <gen> <member>  -> ok   (a consumer request observed after the last closed step;
+                                                             `mon-end C16` also evaluates the composed monitors on the composed trace)
 -/
 namespace Driver.Group
 open Afkak.Group Afkak.Consts Driver
@@ -192,6 +200,7 @@ structure DSt where
   mtrace : List MStep := []       -- the observed trace being assembled (reversed)
   mev : Option Ev := none
   mobs : List Ob := []            -- reversed
+  ptrace : List Afkak.GroupCompose.PStep := []   -- the observed COMPOSED trace (group steps + consumer requests, reversed)
 
 def parseCfg : List String → Option Cfg
   | [a, b, c, d] => do
@@ -202,9 +211,21 @@ def parseCfg : List String → Option Cfg
     some { initialBackoffMs := a, retryBackoffMs := b, fatalBackoffMs := c, heartbeatMs := d, partsCancelSleeping := e != 0 }
   | _ => none
 
-def verdict (pid : String) (cfg : Cfg) (tr : List MStep) : List String :=
-  let f := if pid == "C16" then some (Afkak.Monitor.C16.failing tr)
-           else if pid == "C17" then some (Afkak.Monitor.C17.failing cfg tr) else none
+def showReq' : Afkak.GroupCompose.CReq → String
+  | .fetch c => s!"req fetch {c}"
+  | .commit c g m => s!"req commit {c} {showOptInt g} {m}"
+  | .refused => "req refused"
+
+def parseCReq : List String → Option (Afkak.GroupCompose.PEv × Afkak.GroupCompose.CReq)
+  | ["fetch", c] => c.toNat?.map fun c => (.conFetch c, .fetch c)
+  | ["commit", c, g, m] => do
+    let c ← c.toNat?; let g ← parseOptInt g; let m ← m.toNat?
+    some (.conCommit c, .commit c g m)
+  | _ => none
+
+def verdict (pid : String) (cfg : Cfg) (tr : List MStep) (ptr : List Afkak.GroupCompose.PStep := []) : List String :=
+  let f := if pid == "C16" then some (Afkak.Monitor.C16.failing tr ++ Afkak.Monitor.C16Leave.failing tr ++ Afkak.GroupCompose.failing ptr)
+           else if pid == "C17" then some (Afkak.Monitor.C17.failing cfg tr ++ Afkak.Monitor.C17Coord.failing tr ++ Afkak.Monitor.C17Crash.failing tr) else none
   match f with
   | none => ["bad-op"]
   | some [] => ["ok"]
@@ -222,7 +243,7 @@ def step (d : DSt) (line : String) : DSt × List String :=
        r.2.map showOb ++ [showSnap (snap r.1), showSt r.1])
     | none => (d, ["bad-op"])
   | "mon-reset" :: rest => match parseCfg rest with
-    | some c => ({ d with mcfg := c, mtrace := [], mev := none, mobs := [] }, ["ok"])
+    | some c => ({ d with mcfg := c, mtrace := [], mev := none, mobs := [], ptrace := [] }, ["ok"])
     | none => (d, ["bad-op"])
   | "mon-ev" :: rest => match parseEv rest with
     | some e => ({ d with mev := some e, mobs := [] }, ["ok"])
@@ -231,9 +252,21 @@ def step (d : DSt) (line : String) : DSt × List String :=
     | some o => ({ d with mobs := o :: d.mobs }, ["ok"])
     | none => (d, ["bad-op"])
   | "mon-snap" :: rest => match d.mev, parseSnap rest with
-    | some e, some sn => ({ d with mtrace := ⟨e, d.mobs.reverse, sn⟩ :: d.mtrace, mev := none, mobs := [] }, ["ok"])
+    | some e, some sn => ({ d with mtrace := ⟨e, d.mobs.reverse, sn⟩ :: d.mtrace, mev := none, mobs := [],
+                                   ptrace := ⟨.grp e, d.mobs.reverse, [], sn⟩ :: d.ptrace }, ["ok"])
     | _, _ => (d, ["bad-op"])
-  | ["mon-end", pid] => (d, verdict pid d.mcfg d.mtrace.reverse)
+  | "mon-req" :: rest => match d.mev, parseCReq rest with
+    | none, some (pe, rq) =>
+      let pre := match d.ptrace with | p :: _ => p.snap | [] => snap init
+      ({ d with ptrace := ⟨pe, [], [rq], pre⟩ :: d.ptrace }, ["ok"])
+    | _, _ => (d, ["bad-op"])
+  | ["pev", "fetch", c] => match c.toNat? with
+    | some c => let r := Afkak.GroupCompose.pstep d.cfg d.st (.conFetch c); ({ d with st := r.1 }, r.2.2.map showReq')
+    | none => (d, ["bad-op"])
+  | ["pev", "commit", c] => match c.toNat? with
+    | some c => let r := Afkak.GroupCompose.pstep d.cfg d.st (.conCommit c); ({ d with st := r.1 }, r.2.2.map showReq')
+    | none => (d, ["bad-op"])
+  | ["mon-end", pid] => (d, verdict pid d.mcfg d.mtrace.reverse d.ptrace.reverse)
   | ["mon-model", pid] => (d, verdict pid d.cfg d.trace.reverse)
   | _ => (d, ["bad-op"])
 
